@@ -139,7 +139,11 @@ PROPERTY_PACKS = {
 def run_packs(rep):
     prop = rep.prop
     ran = []
-    packs = list(PROPERTY_PACKS.get(prop, [])) + [
+    packs = list(PROPERTY_PACKS.get(prop, []))
+    if any(p == "table" for p, _ in packs) and not any(p == "cache" for p, _ in packs):
+        packs.append(("cache", "for a grammar file the table a parser uses may come from the .pgc cache: a stale or wrongly "
+                      "loaded one implements another grammar / other options than the ones the property speaks about"))
+    packs = packs + [
         ("purity", "every property compares a parser with what a fresh process would give: hidden module state breaks that")
     ]
     for pack, why in packs:
